@@ -614,6 +614,52 @@ def check_full(case):
     gotd.pop("nreg", None)
     if _plain(wantd) != _plain(gotd):
         raise Violation("builder-declarations", f"builder modes {modes}\nreference {wantd}\nbuilder   {gotd}\n--- program:\n{text}")
+    # core Macro objects taken out of this circuit and placed into a SECOND circuit in which the
+    # macros they call are spelled with other parameter names (alpha-renamed: same meaning): the
+    # reused objects must be linked to the second circuit's macros, not keep their old links
+    calls_macro = any(x[0] == "g" and x[1] in {m["name"] for m in prog["macros"]} for m in prog["macros"] for x in walk([m["body"]]))
+    if calls_macro and not prog["usepulses"]:
+        ch2 = gen.Chooser(case["oo_seed"] + 17)
+        p2 = copy.deepcopy(prog)
+        reuse = []
+        for m in p2["macros"]:
+            if ch2.bool():
+                reuse.append(m["name"])
+                continue
+            ren = {q: q + "_r" for q in m["params"]}
+            taken_ = {l[0] for l in prog["lets"]} | {x[0] for x in prog["maps"]} | {prog["reg"][0] if prog["reg"] else ""}
+            if any(v in taken_ for v in ren.values()):
+                reuse.append(m["name"])
+                continue
+            m["params"] = [ren[q] for q in m["params"]]
+            for x in walk([m["body"]]):
+                if x[0] == "g":
+                    for a in x[2]:
+                        for j in range(1, len(a)):
+                            if isinstance(a[j], str) and a[j] in ren:
+                                a[j] = ren[a[j]]
+                elif x[0] in ("loop", "sub") and isinstance(x[1], str) and x[1] in ren:
+                    x[1] = ren[x[1]]
+        if reuse and len(reuse) < len(p2["macros"]):
+            sx = render.to_sexpr(p2)
+            for i, item in enumerate(sx):
+                if isinstance(item, list) and item and item[0] == "macro" and item[1] in reuse:
+                    sx[i] = co.macros[item[1]]
+            st_, c2 = guard(build, sx, what="build(second circuit with reused Macro objects)")
+            if st_ == "err":
+                raise Violation("builder-api-rejected", f"second circuit reusing Macro objects {reuse}: {c2}\n--- program:\n{text}", where="macro-reuse")
+            from jaqalpaq.core.algorithm import expand_macros
+
+            try:
+                want2 = Ref(p2).validate()
+                got2 = extract.Extractor(c2).meaning()
+                st_, e2 = guard(expand_macros, c2, what="expand_macros(second circuit)")
+                gote = extract.Extractor(e2).meaning() if st_ == "ok" else None
+            except (Invalid, extract.ExtractError) as e:
+                raise Violation("builder-circuit-no-meaning", f"second circuit reusing Macro objects {reuse}: {e}\n--- program:\n{text}", where="macro-reuse")
+            if not same_meaning(want2, got2) or gote is None or not same_meaning(want2, gote):
+                raise Violation("builder-meaning", f"second circuit reusing Macro objects {reuse} (other macros alpha-renamed)\nreference:\n{show(want2)}\ncircuit:\n{show(got2)}\nexpanded:\n{show(gote) if gote is not None else e2}\n--- program:\n{text}", where="macro-reuse")
+            modes.append("macro-objects-reused")
     kinds = sorted(set(modes))
     evald = sum(1 for m in modes if m.endswith(":eval"))
     nontrivial = bool(prog["maps"] or prog["macros"]) and evald >= 1 and any(m.endswith(":lazy") for m in modes)
@@ -714,6 +760,85 @@ def qsyntax_autoload(case):
     return {"nontrivial": True, "classes": ["qubits:%d" % nq], "key": repr(case), "sample": {"text": text}}
 
 
+# ------------------------------------------------------------------------------ stretch_register
+
+
+def _stretch_gen(ch):
+    n = ch.int(1, 4)
+    return {"n": n, "new": n + ch.pick([-1, 0, 1, 1, 2, 3]), "evaluated": ch.bool(), "aliases": [ch.pick(["whole", "slice", "single", "whole-of-whole"]) for _ in range(ch.int(0, 3))], "by_object": ch.bool(), "ask_size_first": ch.bool()}
+
+
+def builder_stretch(case):
+    """CircuitBuilder.stretch_register(new) enlarges the register to max(old, new) and answers
+    whether new >= old; aliases made BEFORE the stretch - from the returned Register object or
+    by name - follow the register as the text form `register r[max]` with the same map
+    statements does (explicit slice bounds stay as written)."""
+    from jaqalpaq.core.circuitbuilder import CircuitBuilder
+
+    n, new, ev = case["n"], case["new"], case["evaluated"]
+    if not (1 <= n <= 8 and 0 <= new <= 12):
+        raise Skip()
+    final = max(n, new)
+    cb = CircuitBuilder()
+    r = cb.register("r", n, unevaluated=not ev)
+    lines = []
+    names = []
+    for i, kind in enumerate(case["aliases"]):
+        nm = "a%d" % i
+        src_name = "r"
+        if kind == "whole-of-whole" and not names:
+            kind = "whole"
+        by_obj = case["by_object"] and ev
+        if kind == "whole":
+            obj = cb.map(nm, r if by_obj else "r", unevaluated=not by_obj)
+            lines.append(f"map {nm} r")
+            top = final - 1
+        elif kind == "slice":
+            obj = cb.map(nm, r if by_obj else "r", slice(0, n, 1), unevaluated=not by_obj)
+            lines.append(f"map {nm} r[0:{n}:1]")
+            top = n - 1
+        elif kind == "single":
+            obj = cb.map(nm, r if by_obj else "r", n - 1, unevaluated=not by_obj)
+            lines.append(f"map {nm} r[{n - 1}]")
+            top = None
+        else:
+            prev, pobj, ptop = names[-1]
+            if ptop is None:
+                continue
+            obj = cb.map(nm, pobj if (by_obj and pobj is not None) else prev, unevaluated=not (by_obj and pobj is not None))
+            lines.append(f"map {nm} {prev}")
+            top = ptop
+        if case["ask_size_first"] and by_obj and top is not None and hasattr(obj, "resolve_size"):
+            obj.resolve_size()  # looking at an alias must not freeze it
+        names.append((nm, obj if by_obj else None, top))
+    st_, ans = guard(cb.stretch_register, new, what="stretch_register")
+    if st_ == "err":
+        raise Violation("builder-api-rejected", f"stretch_register({new}) on r[{n}]: {ans}")
+    if bool(ans) != (new >= n):
+        raise Violation("stretch-answer", f"stretch_register({new}) on r[{n}] answered {ans!r}")
+    body = [f"g r[{final - 1}]"]
+    cb.gate("g", ("array_item", "r", final - 1))
+    for nm, _o, top in names:
+        if top is None:
+            cb.gate("g", nm)
+            body.append(f"g {nm}")
+        else:
+            cb.gate("g", ("array_item", nm, top))
+            body.append(f"g {nm}[{top}]")
+    text = "\n".join([f"register r[{final}]"] + lines + body) + "\n"
+    st_, co = guard(cb.build, what="CircuitBuilder.build")
+    if st_ == "err":
+        raise Violation("builder-api-rejected", f"{co}\n--- the text form is legal:\n{text}\n(evaluated={ev}, aliases from objects={case['by_object'] and ev})", where="stretch")
+    ct = parse(text)
+    tb, tt = generate(co), generate(ct)
+    if not (co == ct) or not (ct == co) or tb != tt:
+        raise Violation("front-ends-differ", f"after stretch_register({new}) on r[{n}]\n--- builder:\n{tb}\n--- text:\n{tt}", where="stretch")
+    st_, back = guard(parse, tb, what="reparse")
+    if st_ == "err" or not (back == co):
+        raise Violation("front-ends-differ", f"the builder circuit's own text does not parse back to it: {back if st_ == 'err' else ''}\n{tb}", where="stretch-roundtrip")
+    return {"nontrivial": new > n and bool(names), "classes": ["enlarged:%s" % (new > n), "aliases:%d" % len(names), "evaluated:%s" % ev], "key": repr(case), "sample": {"text": text, "old": n, "new": new}}
+
+
 def _differs_only_by_wrap(a, b):
     strip = lambda t: [l for l in t.splitlines() if l.strip() not in ("prepare_all", "measure_all")]
     return strip(a) == strip(b)
@@ -723,5 +848,6 @@ def parts():
     return [
         Part("front-ends", gen.cases(_case), check, quick=4000, thorough=100000, min_nontrivial=0.2),
         Part("builder-api-full", _full_cases(), check_full, quick=2500, thorough=60000, min_nontrivial=0.2),
+        Part("builder-stretch", gen.cases(_stretch_gen), builder_stretch, quick=800, thorough=10000, min_nontrivial=0.15),
         Part("qsyntax-autoload", None, qsyntax_autoload, quick=0, thorough=0, exhaustive=_autoload_enum, shards=1),
     ]
